@@ -170,9 +170,9 @@ C01_QUICK_CORE = ["c01_nop", "c01_clr", "c01_ei", "c01_push", "c01_pop", "c01_po
 
 
 def _select_c01(allh, tier, seed):
-    """quick: one triple per micro-routine family plus a seed-chosen rotating sample of the rest; thorough: all."""
-    if tier != "quick":
-        return allh
+    """every tier runs every triple (about 5-6 min on 16 cores): a change to ONE of the four entry words of
+    a two-register routine, or to one addressing-mode word, is otherwise seen only when sampled."""
+    return allh
     import random
     core = [h for h in allh if h in C01_QUICK_CORE]
     rest = [h for h in allh if h not in C01_QUICK_CORE and not h.startswith("gen_")]
@@ -307,6 +307,8 @@ def _c02_heavy(h):
     """operand-shape pairs that carry a constant / label / absolute address or an (R) source: they verify,
     but need several GB each and are sensitive to machine load -> thorough tier only"""
     import re
+    if h.startswith("c02_x_"):
+        return True
     m = re.match(r"c02_e_(?:mov|ds)_(\d)_(\d)$", h)
     if m:
         return int(m.group(1)) in (2, 5) or int(m.group(2)) in (1, 2, 3, 6, 7)
